@@ -607,10 +607,18 @@ func main() {
 		}
 		for k := 0; k < 2; k++ {
 			// first level of the recursive strategy, both arrival orders
-			fs, fobj, frel := scen.GenerateC02FirstLevel(rr)
+			fs, fobj, frel, fsubs := scen.GenerateC02FirstLevel(rr)
 			ro1 := ro
-			ro1.only, ro1.full, ro1.fullNo, ro1.timing = [][2]string{{fobj, frel}}, 1, 1, 1
-			runScenario(ctx, w, rr, g, fs, []string{"user:a"}, ro1)
+			ro1.only, ro1.full, ro1.fullNo, ro1.timing = [][2]string{{fobj, frel}}, 4, 4, 1
+			runScenario(ctx, w, rr, g, fs, fsubs, ro1)
+		}
+		if i%2 == 1 {
+			// set operation with a conditioned leaf as the weight-2 target; outcomes met / not met /
+			// unevaluable mixed over the user's groups
+			cs := scen.GenerateC02CondMix(rr)
+			ro1 := ro
+			ro1.full, ro1.fullNo, ro1.timing = 8, 2, 0
+			runScenario(ctx, w, rr, g, cs, []string{"user:a", "user:b"}, ro1)
 		}
 		for k := 0; k < 12; k++ {
 			runFP(w, genFP(rr))
